@@ -49,6 +49,25 @@ def run_relation(prog, cls_name: str, member: str,
     return it.run(f, {}, None, preset_attrs=preset)
 
 
+def final_attr(prog, res: Result, cls_name: str, name: str) -> Optional[T]:
+    """value of self.<name> after process_data: the stored attribute, or —
+    when the class exposes it as a read-only property — the property body
+    evaluated on the final attributes"""
+    v = res.attrs.get((SELF, name))
+    if v is not None:
+        return v
+    c = prog.cls(f"evo.core.metrics.{cls_name}")
+    m = prog.find_method(c, name)
+    if m is None or not m.is_property:
+        return None
+    preset = {k: val for k, val in res.attrs.items()}
+    r = Interp(prog).run(m, {}, None, preset_attrs=preset)
+    return r.ret if r.ret is not NONE_T else None
+
+
+NONE_T = tm.NONE
+
+
 def init_unit(prog, cls_name: str, member: str) -> Optional[T]:
     f = prog.func(f"evo.core.metrics.{cls_name}.__init__")
     it = Interp(prog)
